@@ -55,6 +55,8 @@ type Fact struct {
 	M   map[string]int64
 	PI  *int64
 	Any interface{}
+	Subs []*Sub
+	SubM map[string]*Sub
 	NilM map[string]int64 // stays nil: writing an entry fails inside reflect
 	items []*Item
 
@@ -176,6 +178,8 @@ func newFact(tag string, shape int) *Fact {
 	f.PI = &pi
 	f.T = time.Unix(smallInt(tag+".T.sec")+1700000000, 0).UTC()
 	f.T2 = time.Unix(smallInt(tag+".T2.sec")+1700000000, 0).UTC()
+	f.Subs = []*Sub{{V: smallInt(tag + ".Subs0.V")}, {V: smallInt(tag + ".Subs1.V")}}
+	f.SubM = map[string]*Sub{"no": {V: smallInt(tag + ".SubM.no.V")}, "go": {V: smallInt(tag + ".SubM.go.V")}}
 	f.items = []*Item{{V: smallInt(tag + ".item0")}, {V: smallInt(tag + ".item1")}}
 	f.PanicAt = 7
 	return f
@@ -234,6 +238,8 @@ func copyFact(f *Fact) *Fact {
 	}
 	pi := *f.PI
 	g.PI = &pi
+	g.Subs = []*Sub{{V: f.Subs[0].V}, {V: f.Subs[1].V}}
+	g.SubM = map[string]*Sub{"no": {V: f.SubM["no"].V}, "go": {V: f.SubM["go"].V}}
 	g.Log = nil
 	g.items = []*Item{{V: f.items[0].V}, {V: f.items[1].V}}
 	return &g
